@@ -964,7 +964,7 @@ def suite_handoff(ctx, can_run_model):
     impl = vlib.run_impl(scs, "ho-impl")
     model = vlib.run_model(scs, "ho-model") if can_run_model else {}
     timpl = vlib.run_impl(twins, "ho-twin")
-    ctx.clauses.update(["C04:sim_path_explored", "C13:feasible_schedule_explored", "C09:source_untouched", "C15:snapshot_no_panic", "C15:crashed_nodes",
+    ctx.clauses.update(["C04:sim_path_explored", "C13:feasible_schedule_explored", "C09:source_untouched", "C15:snapshot_no_panic", "C15:timer_remaining", "C15:crashed_nodes",
                         "C15:inflight_once"])
     for (sc, tw, (rsc, feat, seed)) in zip(scs, twins, raw):
         sid = sc[1]
@@ -989,6 +989,17 @@ def suite_handoff(ctx, can_run_model):
         if "SNAPSHOT PANIC" in il:
             fail("C15:snapshot_no_panic", "ModelChecker::new panicked")
             continue
+        # C15: every pending timer is carried over with exactly its remaining delay (fire time - now, in simulation
+        # time: clock skews do not enter), in real firing order
+        simt = [l.split()[1:] for l in il if l.startswith("XSIMT ")]
+        snapt = [l.split()[1:] for l in il if l.startswith("XSNAPT ")]
+        if simt or snapt:
+            exp = [(a[0], a[1], vlib.f64_bits(vlib.bits_f64(int(a[2])) - vlib.bits_f64(int(a[3])))) for a in simt]
+            got = [(a[0], a[1], int(a[2])) for a in snapt]
+            # timers of crashed nodes are cancelled in the simulator already; everything else must match in order
+            if exp != got:
+                fail("C15:timer_remaining", "pending timers of the simulator (proc, name, fire time - now) %s, timers of the "
+                     "snapshot %s" % (exp[:6], got[:6]))
         if "SNAPSHOT" not in il:
             continue
         k = il.index("SNAPSHOT")
@@ -1244,6 +1255,46 @@ def suite_handoff_repeat(ctx, can_run_model):
             if m and int(m.group(1)) >= 2:
                 ctx.count("handoff_repeat_pending_ge2")
                 ctx.nontrivial.add(sc_hash(sc))
+
+
+def suite_pred_sweep(ctx, can_run_model):
+    """C19: small systematic systems whose processes 0 and 1 fill their local outboxes with every ordered pair / triple
+    over {type A, type PING} x {the two payloads the battery's received_messages instances expect, one other}: equal
+    data under different types, duplicates, unexpected and missing messages all occur; every state of the exploration
+    is evaluated by the real predicates and by the specification-proved model (monitor C19:predicate_value)."""
+    from gen_store import bstr
+    import itertools
+    rng = random.Random(ctx.seed * 1000003 + 89)
+    tips = [b"A", b"PING"]
+    datas = [b"plain", b'{"k": "v"}', b'{"n": 1}']
+    msgs = ["%s %s" % (bstr(t), bstr(d)) for t in tips for d in datas]
+    combos = list(itertools.permutations(range(len(msgs)), 2)) + [(i, i) for i in range(len(msgs))]
+    combos += [tuple(rng.sample(range(len(msgs)), 3)) for _ in range(12)]
+    if ctx.tier == "quick" and not ctx.widen:
+        rng.shuffle(combos)
+        combos = combos[:30]
+    scs = []
+    for j, combo in enumerate(combos):
+        lines = ["NODE 0 0", "NODE 1 0"]
+        # process 0 writes the whole combination to its outbox in one handler call and pokes process 1, which writes
+        # the reversed combination to its own outbox
+        acts0 = ["L %s" % msgs[m] for m in combo] + ["S 1 %s" % msgs[combo[0]]]
+        lines.append("PROC 0 0 1 0 0 1")
+        lines.append("ROW 0 %d %s" % (len(acts0), " ".join(acts0)))
+        acts1 = ["L %s" % msgs[m] for m in reversed(combo)]
+        lines.append("PROC 1 1 1 0 0 1")
+        lines.append("ROW 1 %d %s" % (len(acts1), " ".join(acts1)))
+        lines.append("NET 0 0 0 %d %d" % (vlib.f64_bits(1.0), vlib.f64_bits(1.0)))
+        lines += gen_mc.clock_lines([0.0], 16)
+        lines += ["PRED INV NONE", "PRED GOAL NOEVENTS", "PRED PRUNE NONE", "PRED COLLECT NONE"]
+        lines.append("CB LOCAL 0 0 %s" % msgs[combo[0]])
+        lines.append("RUN BFS FULL 0 %d" % gen_mc.FUEL)
+        scs.append(("MC", "ps%d-%d" % (ctx.seed, j), lines))
+    impl, parsed = mc_run_all(ctx, scs, can_run_model, "ps", with_ref=False)
+    for sc in scs:
+        runs = parsed[sc[1]]
+        if runs and len(runs[0]["checks"]) >= 2:
+            ctx.nontrivial.add(sc_hash(sc))
 
 
 def suite_mc_rand_repeat(ctx, can_run_model):
@@ -1623,8 +1674,9 @@ PROPERTIES = {
                                           "steps (F10); runs that return"],
     },
     "C10": {
-        "suites": [suite_mc_matrix_sb, suite_mc_matrix],
-        "rule": "Each base system (as in MC scenarios) explored under BFS and DFS in all three visited modes: with "
+        "suites": [suite_mc_matrix_sb, suite_mc_matrix, suite_mc_staged],
+        "rule": "Staged runs as C16 (the order in which run_from_states takes its start states - by depth - is part of "
+                "the correspondence). Each base system (as in MC scenarios) explored under BFS and DFS in all three visited modes: with "
                 "state-based predicates (no depth bound) the evaluated sets and verdicts are compared; with a common "
                 "depth bound verdict kinds and error depths (BFS error depth <= DFS error depth). "
                 "distinct_nontrivial = base systems with >= 40 evaluated states over the six runs and timers or faults.",
@@ -1682,7 +1734,7 @@ PROPERTIES = {
         "assumptions": STD_ASSUMPTIONS + ["state-based predicates; all start states share the network settings"],
     },
     "C19": {
-        "suites": [suite_mc, suite_mc_staged],
+        "suites": [suite_pred_sweep, suite_mc, suite_mc_staged],
         "rule": MC_RULE + "On EVERY state handed to the invariant a battery of 70 instances of the library predicates "
                 "(all of src/mc/predicates.rs except time_limit: depth limits with boundary parameters, received_messages "
                 "with three expected sets and a wrong node, got_n_local_messages, no_events, depth_reached, always_ok, "
